@@ -348,6 +348,11 @@ class Server:
             # If timeout is negative, it doesn't wait.
             # This may raise an exception originating from RemoteException
         except concurrent.futures.TimeoutError as e:
+            if fut.done() and not fut.cancelled() and fut.exception() is e:
+                # Not a timeout of this wait: it is the request's own outcome, an exception of
+                # this class raised by the worker (`concurrent.futures.TimeoutError` is the
+                # builtin `TimeoutError`).
+                raise
             fut.cancel()
             t0 = fut.data['t0']
             fut.data['t_cancelled'] = perf_counter()
@@ -629,7 +634,10 @@ class AsyncServer:
     async def _wait_for_result(self, fut: asyncio.Future):
         try:
             await asyncio.wait_for(fut, fut.data['deadline'] - perf_counter())
-        except (asyncio.TimeoutError, TimeoutError):
+        except (asyncio.TimeoutError, TimeoutError) as e:
+            if fut.done() and not fut.cancelled() and fut.exception() is e:
+                # Not a timeout of this wait; see `Server._wait_for_result`.
+                raise
             t0 = fut.data['t0']
             fut.cancel()
             fut.data['t_cancelled'] = perf_counter()  # time of abandonment
